@@ -14,7 +14,9 @@ def c10 (j : Json) : R Json := do
   let L ← fieldAs (List (List Nat)) j "L"
   let res := mpcc edges maxSize L
   let ac := allCliques edges nodes
-  let contract := (ac.all fun c => L.any fun d => sortNat d = sortNat c) && (L.all fun d => ac.any fun c => sortNat d = sortNat c)
+  -- `EnumeratesUpTo`: only cliques, and every clique within the size limit is listed
+  let contract := (ac.all fun c => (maxSize > 0 && c.length > maxSize) || L.any fun d => sortNat d = sortNat c)
+    && (L.all fun d => ac.any fun c => sortNat d = sortNat c)
   pure <| obj [("labels", Json.arr (res.map fun (e, l) => Json.arr #[toJson e,
                   match l with | none => Json.null | some l => Json.arr #[toJson l.size, toJson l.members, toJson l.id]]).toArray),
                ("cover", toJson (cover edges maxSize L)), ("enumerate_all_cliques_contract", toJson contract)]
